@@ -117,11 +117,11 @@ def ob_mul(crate, fname, n):
             for j, hb in enumerate(halves_b):
                 key = tuple(sorted((ha.v.t.get_id(), hb.v.t.get_id())))
                 if key not in dom.products:
-                    raise Violation("%s never forms the partial product a_%d*b_%d" % (fname, i, j))
+                    raise Inconclusive("structure not recognised (no verdict): " + "%s never forms the partial product a_%d*b_%d" % (fname, i, j))
                 total = total + dom.products[key][0] * (1 << (32 * (i + j)))
                 nprod += 1
         if len(dom.products) != nprod:
-            raise Violation("%s forms %d partial products, schoolbook needs %d" % (fname, len(dom.products), nprod))
+            raise Inconclusive("structure not recognised (no verdict): " + "%s forms %d partial products, schoolbook needs %d" % (fname, len(dom.products), nprod))
         R = val(dom, r)
         rng = z3.And([z3.And(dom.term(x) >= 0, dom.term(x) < W64) for x in r.f])
         discharge(stats, ctx.facts + ctx.pc, z3.And(R == total, rng), "%s == sum a_i*b_j*2^(32(i+j)) (exact product)" % fname, timeout_s=120)
@@ -265,14 +265,14 @@ def ob_mont_mul(crate, fname, modulus, tag):
             R = val(dom, r)
             key = tuple(sorted((A.get_id(), B.get_id())))
             if key not in l2.bigprod:
-                raise Violation("%s does not form the product a*b" % fname)
+                raise Inconclusive("structure not recognised (no verdict): " + "%s does not form the product a*b" % fname)
             Z = l2.bigprod[key][0]
             hy = ctx.facts + ctx.pc
             rng = z3.And([z3.And(dom.term(x) >= 0, dom.term(x) < W64) for x in r.f])
             # witness for the congruence: the Montgomery quotient T is the first operand of the multiplication by m
             muls = [c_ for c_ in l2.calls if c_[0] == "mul" and isinstance(c_[2], int) and c_[2] == modulus]
             if len(muls) != 1:
-                raise Violation("%s does not multiply the reduced quotient by the modulus exactly once" % fname)
+                raise Inconclusive("structure not recognised (no verdict): " + "%s does not multiply the reduced quotient by the modulus exactly once" % fname)
             T = muls[0][1]
             cong = z3.Or(R * (1 << 256) == Z + T * modulus, R * (1 << 256) == Z + T * modulus - modulus * (1 << 256))
             discharge(stats, hy, z3.And(rng, cong), "%s: r*2^256 = a*b + T*m - {0, m*2^256, 2^512} (so r*2^256 ≡ a*b mod m... )" % fname, timeout_s=60)
